@@ -75,7 +75,7 @@ func (rc *RunCtx) Sample(k string, v interface{}) {
 	rc.sample[k] = v
 }
 
-var policyNames = []string{"lowest-id", "random", "highest-id", "sticky", "pct", "round-robin"}
+var policyNames = []string{"lowest-id", "random", "highest-id", "sticky", "pct", "round-robin", "stall-one-task"}
 
 // SimOpts configures one simulated bubble.
 type SimOpts struct {
@@ -84,6 +84,8 @@ type SimOpts struct {
 	UniqueKey []byte
 	MaxSteps  int
 	Stdio     *verifsim.Stdio
+	StallSites []string // directed exploration: force the stall policy with these sites as the slow ones
+	NoLowest  bool // never draw the lowest-id policy (it is the canonical schedule the variant is compared with)
 }
 
 // Sim runs root in a bubble; schedule policy and the schedule tape's seed are drawn
@@ -96,6 +98,13 @@ func (rc *RunCtx) Sim(o SimOpts, root func()) *verifsim.Sim {
 		cfg.Rand = verifsim.ReplayTape(nil)
 	} else {
 		cfg.Policy = rc.G.n(verifsim.NumPolicies)
+		if len(o.StallSites) > 0 {
+			cfg.Policy = verifsim.PolicyStall
+			cfg.StallSites = o.StallSites
+		}
+		if o.NoLowest && cfg.Policy == verifsim.PolicyLowest {
+			cfg.Policy = verifsim.PolicyRandom
+		}
 		cfg.Sched = verifsim.NewTape(uint64(rc.G.n(1<<30)), 1<<20)
 		cfg.Rand = verifsim.NewTape(uint64(rc.G.n(1<<30)), 1<<12)
 	}
